@@ -1,6 +1,7 @@
 import AdbModel
 import Driver.Util
 import Driver.Session
+import Driver.Conc
 /-
   Model driver: one request per line on stdin, one reply line per request on stdout.
   The Python harness sends the same operations to the real implementation and diffs.
@@ -10,6 +11,7 @@ open Adb Drv
 structure DState where
   store : Store := []
   sess : Sess := {}
+  conc : Adb.Conc.Sys := { wire := [], readers := [] }
 
 def showQItems (q : List QItem) : String :=
   "[" ++ ",".intercalate (q.map (fun (c, d) => c.name ++ ":" ++ toHex d)) ++ "]"
@@ -100,6 +102,7 @@ def step (st : DState) (line : String) : DState × String :=
   match tokens line with
   | "codec" :: rest => (st, stepCodec rest)
   | "store" :: rest => stepStore st rest
+  | "conc" :: rest => let (c', out) := stepConc st.conc rest; ({ st with conc := c' }, out)
   | "sess" :: rest => let (s', out) := stepSess st.sess rest; ({ st with sess := s' }, out)
   | _ => (st, "bad-op")
 
